@@ -36,9 +36,21 @@ def c07():
     ]:
         obs.append(ob("c07a::" + name, "q", 66, claim, W % q, env={"VH_LIMBITS": q}))
         obs.append(ob("c07a::" + name, "t", 66, claim, W % t, env={"VH_LIMBITS": t}, est=600))
+    HL = {"memcmp": 40, "compress": 42}
+    for n, tiers in [(2, "qt"), (3, "qt"), (4, "t"), (5, "t")]:
+        obs.append(ob("c07b::construction_equals_definition", tiers, 8,
+                      "PMMR::push/root/get_hash/validate over VecBackend equal the defining construction (leaf hash over position+data, parent over position+children, peaks bagged right to left with the size); merkle_proof for every leaf verifies",
+                      "%d leaves with symbolic 32-bit contents, symbolic probe position and leaf index" % n,
+                      env={"VH_NLEAF": n}, tag="_n%d" % n, est=120 * n, loops=HL, cap_s=900 if "q" in tiers else 3600))
+        obs.append(ob("c07b::merkle_proof_sound", tiers if n < 3 else "t", 8,
+                      "under the ideal hash: other element / other position / altered path hash / shortened / lengthened path never verify",
+                      "%d leaves, symbolic leaf index and corruption" % n,
+                      env={"VH_NLEAF": n}, tag="_n%d" % n, est=200 * n, loops=HL, replay="model", cap_s=900 if "q" in tiers else 3600))
     return {
         "obligations": obs,
-        "stubs": BASE_STUBS,
+        "stubs": BASE_STUBS + ["E4a Blake2b::compress -> cheap deterministic mixer (completeness harnesses)",
+                               "E4b Blake2b::compress -> ideal hash / intern table of 40 entries (soundness harnesses): collision freedom is an explicit assumption",
+                               "E3 RandomState::new -> fixed keys (VecBackend holds an always-empty HashSet)"],
         "explanation": "Bounded proof by Kani/CBMC over the compiled grin_core::core::pmmr functions; inputs are symbolic u64.",
         "bounds": "see per-obligation bounds; all loops fully unwound (unwind 66 >= 64-bit descent + 1), unwinding assertions on",
         "outside": "PMMRBackend-backed MMRs (C08)",
@@ -134,8 +146,178 @@ def c04():
     }
 
 
+def c05():
+    obs = []
+    # family D: proof serialisation, one query per (chain type -> proof size, edge_bits)
+    for ct, eb, tiers in [(0, 10, "qt"), (0, 29, "qt"), (0, 31, "qt"), (0, 63, "qt"), (0, 1, "t"), (0, 17, "t"), (0, 32, "t"), (0, 48, "t"), (3, 29, "t"), (3, 31, "t"), (3, 32, "t")]:
+        n = 8 if ct == 0 else 42
+        b = "proof size %d, edge_bits %d" % (n, eb)
+        e = {"VH_CT": ct, "VH_EB": eb}
+        tag = "_n%d_eb%d" % (n, eb)
+        u = n + 3
+        L = {"memcmp": 400, "memcpy": 400}
+        obs.append(ob("c05::proof_roundtrip", tiers, u, "Proof: read(write(p)) == p bit-exactly for every in-range nonce tuple", b + ", all nonces < 2^edge_bits", env=e, tag=tag, est=60 if n == 8 else 900, loops=L, cap_s=900 if "q" in tiers else 3600))
+        obs.append(ob("c05::proof_decode_valid", tiers, u, "Proof::read on any bytes of the exact length: never panics; Ok => exactly n nonces, each < 2^edge_bits, padding bits zero (refused, not normalised)", b + ", all byte strings", env=e, tag=tag, est=120 if n == 8 else 1500, loops=L, cap_s=900 if "q" in tiers else 3600))
+        if n == 8:
+            obs.append(ob("c05::proof_decode_injective", tiers, u, "two accepted encodings of equal proofs are equal byte strings (canonical form)", b + ", two symbolic buffers", env=e, tag=tag, est=240, loops=L, cap_s=900 if "q" in tiers else 3600))
+    obs.append(ob("c05::proof_bad_edge_bits_refused", "qt", 12, "edge_bits 0 and 64..=255 refused whatever follows; no panic for any first byte", "16 symbolic bytes, AutomatedTesting", env={"VH_CT": 0}, est=120, loops={"memcmp": 100}))
+    obs.append(ob("c05::pow_variant_selection", "qt", 4, "create_pow_context picks cuckatoo unless a production chain asks for <= 29 edge bits, then the cuckaroo variant of header_version(height), none after HF4",
+                  "every chain type, height < 2^32, every edge_bits byte", est=60, replay="model"))
+    return {
+        "obligations": obs,
+        "stubs": BASE_STUBS + ["E12 allocation ghost (bad-edge-bits obligation)", "variant constructors new_cuck*_ctx -> tagging stubs (selection obligation only)"],
+        "explanation": "Bounded proof over Proof::{read, write, pack_nonces}, pack_bits, read_number, extract_bits and global::create_pow_context.",
+        "bounds": "edge_bits and proof size concrete per query; nonces / bytes symbolic",
+        "outside": "cycle verification against the graph definitions (family A: measured 20 min per variant at n=4, not registered yet), siphash equivalence, solver (find_cycles), lean miner",
+        "assumptions": [],
+    }
+
+
+def c10():
+    obs = [
+        ob("c10::kernel_features_roundtrip", "qt", 20, "KernelFeatures: decode(encode(x,v),v)==x, exact length, for every variant/fee/height and v in {1,2,3,1000}", "full width on every field", est=200),
+        ob("c10::kernel_features_canonical", "qt", 20, "KernelFeatures: any accepted 17-byte string re-encodes to the consumed bytes; unknown tags, non-zero v1 padding, NRD-while-disabled refused", "all 2^136 strings x 4 versions x NRD flag", est=100),
+        ob("c10::txkernel_roundtrip_and_hash", "qt", 8, "TxKernel round trip field-wise; identity hash independent of protocol version", "all kernels; hashing under the deterministic mixer E4a", est=300, unwindset={"memcmp.0": 70}),
+        ob("c10::input_and_output_identifier_roundtrip", "qt", 8, "Input / OutputIdentifier round trip at every version", "all values", est=60, unwindset={"memcmp.0": 40}),
+        ob("c10::input_canonical", "qt", 8, "Input: accepted bytes re-encode identically; unknown feature byte refused", "all 34-byte strings", est=60, unwindset={"memcmp.0": 40}),
+    ]
+    return {
+        "obligations": obs,
+        "stubs": BASE_STUBS + ["E4a Blake2b::compress -> cheap deterministic mixer (equal bytes => equal hash is all the clause needs)"],
+        "explanation": "Bounded proof over the Writeable/Readable impls of the fixed-size consensus objects with fully symbolic values / byte strings.",
+        "bounds": "fixed-size types: every field at full width; protocol versions {1,2,3,1000}",
+        "outside": "containers (TransactionBody, Block, CompactBlock), headers, segments, p2p messages: not yet encoded in this revision",
+        "assumptions": [],
+    }
+
+
+def c12():
+    obs = [
+        ob("c12::cut_through_1_2", "qt", 6, "cut_through: remaining = union minus exactly the matched pairs (multiset), slices sorted, no index panic", "1 input + 2 outputs, commitments differ in one symbolic byte", est=120, unwindset={"memcmp.0": 40}),
+        ob("c12::cut_through_2_1", "qt", 6, "same", "2 inputs + 1 output", est=120, unwindset={"memcmp.0": 40}),
+        ob("c12::cut_through_2_2", "qt", 6, "same", "2 inputs + 2 outputs", est=700, cap_s=1800, unwindset={"memcmp.0": 40}, mem_est_gb=10),
+        ob("c12::cut_through_err_iff_duplicate_2_2", "qt", 6, "Err(CutThrough) iff a duplicate survives", "2 + 2", est=700, cap_s=1800, unwindset={"memcmp.0": 40}, mem_est_gb=10),
+        ob("c12::cut_through_3_3", "t", 8, "same", "3 inputs + 3 outputs", est=3000, cap_s=5400, unwindset={"memcmp.0": 40}, mem_est_gb=20),
+    ]
+    return {
+        "obligations": obs,
+        "stubs": BASE_STUBS + ["E15 core::slice::sort::unstable::sort -> insertion sort with the same comparator"],
+        "explanation": "Bounded proof over transaction::cut_through instantiated with a harness element type (commitment newtype ordered by its varying byte).",
+        "bounds": "slice shapes concrete per query; commitment contents symbolic in one byte (256 values, duplicates and matches included)",
+        "outside": "aggregate/deaggregate/hydrate_from over the hash-ordered grin types (measured not to finish), more than 3+3 elements",
+        "assumptions": ["cut_through's matching logic does not depend on which total order T: Ord supplies"],
+    }
+
+
+SECP_STUBS = ["E7 algebraic secp model: Secp256k1::{commit,commit_value,commit_sum,blind_sum,verify_bullet_proof_multi}, SecretKey::from_slice, Commitment::to_pubkey, aggsig::verify_batch, static_secp_instance, Drop for Secp256k1 -> commitments are pairs (v,r) in Z_2^16 x Z_2^16 added component-wise; signature/range-proof verification are oracle bits carried in the object",
+              "E14 zeroize::barrier::optimization_barrier -> no-op (inline asm compiler barrier)",
+              "E4a Blake2b::compress -> cheap deterministic mixer"]
+
+
+def c01():
+    L = {"zeroize": 36, "memcmp": 70}
+    obs = [
+        ob("c01::kernel_sums_iff_equation_1_2_1", "qt", 5, "Committed::verify_kernel_sums == Ok  <=>  sum(outputs) - sum(inputs) + overage == sum(kernel excesses) + offset (both components)",
+           "1 input / 2 outputs / 1 kernel; every commitment any model element; |overage| < 2^40; any offset", est=200, loops=L, replay="model", cap_s=1200),
+        ob("c01::tx_validate_sound_1_2_1", "t", 5, "Transaction::validate == Ok => balance equation with the fee as only extra value AND every kernel signature / range proof consulted and valid AND no coinbase output or kernel",
+           "1 input / 2 outputs / 1 kernel; symbolic feature variants, fee < 2^40, shift < 16, coinbase flags, oracle bits, offset", est=900, loops=L, replay="model", cap_s=3600, mem_est_gb=18),
+    ]
+    return {
+        "obligations": obs,
+        "stubs": BASE_STUBS + SECP_STUBS,
+        "explanation": "Bounded proof over the real Committed / Transaction validation code with the secp256k1 FFI replaced by a homomorphic image of the commitment group; asserts accept => model equation and oracles consulted.",
+        "bounds": "body shapes concrete per query; model group Z_2^16 x Z_2^16",
+        "outside": "chain-level sums (pipe.rs, txhashset), blocks and coinbase rules (not yet encoded), real curve arithmetic / signatures / bulletproofs, equation violations that vanish modulo 2^16 in both components",
+        "assumptions": ["libsecp256k1-zkp implements an additively homomorphic binding commitment and sound signature / range-proof verification"],
+    }
+
+
+def c13():
+    obs = [
+        ob("c13::block_lock_heights", "qt", 6, "Block::validate_read never accepts a block holding a height-locked kernel above the block height; the lock-height error is exact; boundaries one below / at / one above covered",
+           "2 kernels of symbolic variant (plain / height-locked with any u64 lock height / NRD), any block height", est=200, loops={"memcmp": 70, "zeroize": 36}, cap_s=1200),
+        ob("c13::nrd_relative_height_range", "qt", 4, "NRDRelativeHeight (constructor and decoder) accepts exactly 1..=WEEK_HEIGHT", "every u64 / u16", est=20),
+        ob("c13::body_lock_height_is_max", "qt", 6, "TransactionBody::lock_height = max absolute lock height of its kernels", "2 kernels of symbolic variant", est=60),
+    ]
+    return {
+        "obligations": obs,
+        "stubs": BASE_STUBS + ["E4a Blake2b::compress -> cheap deterministic mixer (kernel ordering by hash)"],
+        "explanation": "Bounded proof over Block::validate_read / verify_kernel_lock_heights, TransactionBody::lock_height and NRDRelativeHeight.",
+        "bounds": "blocks with exactly 2 kernels and no inputs/outputs; heights full width",
+        "outside": "coinbase maturity (UTXOView, LMDB), NRD relative-height index (LMDB linked list), pool lock-height forwarding, every fork/rewind clause",
+        "assumptions": [],
+    }
+
+
+def c14():
+    obs = [
+        ob("c14::pool_refuses_low_fee", "qt", 6, "TransactionPool::add_to_pool refuses (LowFeeTransaction) every tx whose shifted fee is below weight*accept_fee_base; weight / shifted_fee / accept_fee formulas",
+           "1-in/2-out/1-kernel tx, fee < 2^40, shift < 16, base < 2^40, plain or height-locked kernel, stem or fluff, empty pools", est=120, loops={"memcmp": 70, "zeroize": 36}, cap_s=1200),
+        ob("c14::pool_refuses_nrd_unless_enabled_and_hf3", "qt", 6, "add_to_pool refuses NRD kernels while the feature is off or the header version is below 4",
+           "every header version (u16), flag on/off", est=120, loops={"memcmp": 70, "zeroize": 36}, cap_s=1200),
+        ob("c14::fee_and_weight_arithmetic", "qt", 6, "body fee = sum, fee_shift = max, shifted fee = sum >> max over fee-carrying kernels; weight_by_iok = i + 21 o + 3 k saturating",
+           "3 kernels (plain, coinbase, height-locked) with symbolic fee fields; counts full width", est=60),
+    ]
+    return {
+        "obligations": obs,
+        "stubs": BASE_STUBS + ["E14 zeroize barrier -> no-op", "model BlockChain / PoolAdapter trait objects (the pool is generic over them); not reached by the early-refusal obligations"],
+        "explanation": "Bounded proof over TransactionPool::{new, add_to_pool, verify_kernel_variants, is_acceptable}, Transaction::{weight, shifted_fee, accept_fee}, TransactionBody::{fee, fee_shift, shifted_fee, weight_by_iok}.",
+        "bounds": "empty pools; one transaction of fixed shape with symbolic fee fields and configuration",
+        "outside": "everything after the fee gate: standalone validation inside the pool path, Pool::add_to_pool aggregate-and-validate with non-empty pools, reconcile, reorg cache, eviction, prepare_mineable_transactions (the 'after any sequence' part of the property)",
+        "assumptions": [],
+    }
+
+
+def c19():
+    obs = [
+        ob("c19::frame_header_limits", "qt", 6, "MsgHeaderWrapper::read: accepted => network magic, type/length are the wire fields, length <= 4x the per-type limit (default limit for unknown types); refused only for wrong magic or over-limit length; no allocation",
+           "all 2^88 frame headers x 4 chain types", est=60),
+        ob("c19::read_message_wrong_type_refused", "qt", 14, "read_message::<Ping> over an 11-byte stream: wrong magic refused, other type => error, never a panic or body allocation beyond the bound",
+           "all 11-byte streams, Mainnet", est=120),
+    ]
+    return {
+        "obligations": obs,
+        "stubs": BASE_STUBS + ["E12 allocation ghost (concrete 4 KiB blocks; every request asserted against the bound)"],
+        "explanation": "Bounded proof over p2p::msg::{MsgHeaderWrapper::read, read_message, read_header, read_body, read_discard} driven from a symbolic byte slice.",
+        "bounds": "one frame header (11 bytes)",
+        "outside": "Codec state machine under fragmentation (queries did not finish), attachments, header batches, handshake (socket + RNG), timeouts, conn.rs threads",
+        "assumptions": ["the per-type limits restated in the harness are the protocol's constants (a deliberate protocol change of a limit must update the harness)"],
+    }
+
+
+def c16():
+    obs = []
+    HL = {"memcmp": 40, "compress": 42}
+    for n, h, idx, tiers in [(3, 1, 0, "qt"), (3, 1, 1, "qt"), (3, 0, 2, "qt"), (3, 1, 2, "qt"), (4, 1, 1, "t"), (5, 2, 0, "t"), (5, 1, 2, "t")]:
+        obs.append(ob("c16::segment_complete", tiers, 8,
+                      "Segment::from_pmmr exists iff its first leaf is inside the mmr; what it produces validates against the root (validate) and under a merged root (validate_with)",
+                      "%d leaves (symbolic contents), segment height %d index %d, non-prunable" % (n, h, idx),
+                      env={"VH_NLEAF": n, "VH_SEGH": h, "VH_SEGIDX": idx}, tag="_n%d_h%d_i%d" % (n, h, idx), est=300, loops=HL, cap_s=1200 if "q" in tiers else 3600))
+    for n, h, idx, tiers in [(3, 1, 0, "qt"), (3, 1, 1, "t"), (4, 1, 1, "t"), (5, 2, 0, "t")]:
+        obs.append(ob("c16::segment_sound", tiers, 8,
+                      "under the ideal hash: changing a leaf's data or position, a proof hash, dropping a leaf or proof hash, or the identifier makes validate fail",
+                      "%d leaves, segment height %d index %d, symbolic single corruption" % (n, h, idx),
+                      env={"VH_NLEAF": n, "VH_SEGH": h, "VH_SEGIDX": idx}, tag="_n%d_h%d_i%d" % (n, h, idx), est=400, loops=HL, replay="model", cap_s=1200 if "q" in tiers else 3600))
+    return {
+        "obligations": obs,
+        "stubs": BASE_STUBS + ["E4a / E4b hash models as in C07", "E3 RandomState::new -> fixed keys"],
+        "explanation": "Bounded proof over Segment::{from_pmmr, root, first_unpruned_parent, validate, validate_with}, SegmentProof::{generate, reconstruct_root} on MMRs built by the real PMMR over VecBackend.",
+        "bounds": "MMR size, segment height and index concrete per query; leaf contents and the corruption symbolic",
+        "outside": "prunable segments (need the croaring bitmap model), Segmenter / Desegmenter / txhashset zip (LMDB + files): 'never finalises a wrong state' is not decided here",
+        "assumptions": ["hash collision freedom (ideal hash) for the soundness obligations"],
+    }
+
+
 PLAN = {
+    "C01": c01(),
     "C04": c04(),
+    "C05": c05(),
+    "C10": c10(),
+    "C12": c12(),
+    "C13": c13(),
+    "C14": c14(),
+    "C16": c16(),
+    "C19": c19(),
     "C07": c07(),
     "C11": c11(),
 }
